@@ -43,6 +43,25 @@ def physical_name_rule(ctx, rid, only_harvester=False):
             else:
                 rr.bad(ctx.finding(rid, f, nz[0].ast if nz else f.node, "%s does not normalise file_name with auto_add_extension(file_name, engine) before every use" % f.name, construct="layer-normalise " + f.name), "%s normalises" % f.name)
             continue
+        # local names that are plain copies of one another (`a = b`, `(a, x) = (b, ...)`) name the same engine
+        alias = {}
+
+        def _find(x_):
+            while alias.get(x_, x_) != x_:
+                x_ = alias[x_]
+            return x_
+        for st_ in ast.walk(f.node):
+            if isinstance(st_, ast.Assign) and len(st_.targets) == 1:
+                prs_ = []
+                if isinstance(st_.targets[0], ast.Name) and isinstance(st_.value, ast.Name):
+                    prs_ = [(st_.targets[0].id, st_.value.id)]
+                elif isinstance(st_.targets[0], ast.Tuple) and isinstance(st_.value, ast.Tuple) and len(st_.targets[0].elts) == len(st_.value.elts):
+                    prs_ = [(t_.id, v_.id) for t_, v_ in zip(st_.targets[0].elts, st_.value.elts) if isinstance(t_, ast.Name) and isinstance(v_, ast.Name)]
+                for a_, b_ in prs_:
+                    alias[_find(a_)] = _find(b_)
+
+        def _same_engine(e1, e2):
+            return e1 == e2 or (e1 is not None and e2 is not None and e1.isidentifier() and e2.isidentifier() and _find(e1) == _find(e2))
         # which engine expression is used for the actual load / save in this function
         io_eng = set()
         for n, c, nm in all_calls(ctx, f, g):
@@ -106,9 +125,9 @@ def physical_name_rule(ctx, rid, only_harvester=False):
                     if q == FARM + ".Harvester.delete_ds":
                         good = eng == "self.engine"
                     elif q == MAN + ".save_merge_ds":
-                        good = eng in io_eng
+                        good = any(_same_engine(eng, e_) for e_ in io_eng)
                     else:
-                        good = (eng in io_eng) if io_eng else True
+                        good = any(_same_engine(eng, e_) for e_ in io_eng) if io_eng else True
                     if good:
                         rr.ok("%s: `%s` on the normalised name (engine %s)" % (f.name, norm(c)[:40], eng))
                     else:
@@ -152,6 +171,9 @@ def physical_name_rule(ctx, rid, only_harvester=False):
                                construct="engine-default-mismatch"), "save_merge default engine")
         else:
             rr.bad(ctx.finding(rid, sm, saves[0], "save_merge_ds does not forward the caller's engine to save_ds", construct="engine-not-forwarded"), "save_merge engine forwarded")
+    elif isinstance(src, ast.Constant) and isinstance(src.value, str) and (splat or (explicit is not None and not isinstance(explicit, ast.Constant))):
+        rr.bad(ctx.finding(rid, sm, loads[0], "save_merge_ds looks for / loads the existing file with the fixed engine %s while the merged dataset is saved with the caller's engine: with engine='joblib' (or any other than %s) the existing file is not found "
+                           "(its earlier contents are overwritten, conflicts are not refused) or is opened with the wrong library" % (norm(src), norm(src)), construct="load-engine-constant"), "save_merge load engine")
     else:
         raise AnalysisError("idiom changed: engine used by save_merge_ds to load (`%s`)" % norm(src))
     return rr
@@ -576,25 +598,30 @@ def engine_tables_rule(ctx, rid):
         fn, n = loose[0]
         rr.bad(ctx.finding(rid, fn, n.test, "attributes are rewritten under `%s` instead of the identity tests `val is None / True / False`: an == / `in` test also rewrites the numbers 0, 1, 0.0, 1.0 to 'False' / 'True'" % norm(n.test), construct="attr-rewrite-tests"), "attr rewriting")
     elif len(ident) == 3 and stores == {"None": "None", "True": "True", "False": "False"}:
-        g = build_cfg(sd.node)
-        guards = [n for n in g.nodes if n.kind == "test" and "engine" in norm(n.ast) and "joblib" in norm(n.ast) and "zarr" in norm(n.ast)]
-        if guards:
-            # the guard holds exactly for the engines that go through xarray's netCDF writer
-            from ..util import IntEval
+        # under which engines is the rewriting reached?  the path condition of a rewriting store, evaluated per engine
+        from ..util import IntEval
+        from ..pathcond import path_tests
+        st_nodes = [x for x in ast.walk(sd.node) if isinstance(x, ast.Assign) and isinstance(x.targets[0], ast.Subscript) and norm(x.targets[0].value).endswith(".attrs")
+                    and isinstance(x.value, ast.Constant) and x.value.value in ("None", "True", "False")]
+        if not st_nodes:
+            raise AnalysisError("idiom changed: the stores of the attribute rewriting are not in save_ds itself")
+        tests = [(t_, pol_) for t_, pol_ in path_tests(sd.node, st_nodes[0]) if any(isinstance(x, ast.Name) and x.id == "engine" for x in ast.walk(t_))]
+        if tests:
             wrong = []
             for eng in sorted(engines):
                 try:
-                    gv = bool(IntEval({"engine": eng}).ev(guards[0].ast, {}))
+                    gv = all(bool(IntEval({"engine": eng}).ev(t_, {})) == pol_ for t_, pol_ in tests)
                 except AnalysisError as ex_:
-                    raise AnalysisError("idiom changed: guard of the attribute rewriting `%s` cannot be evaluated (%s)" % (norm(guards[0].ast), ex_))
+                    raise AnalysisError("idiom changed: guard of the attribute rewriting `%s` cannot be evaluated (%s)" % (" / ".join(norm(t_) for t_, _ in tests)[:80], ex_))
                 want_ = eng not in ("joblib", "zarr")
-                if gv is not None and gv != want_:
+                if gv != want_:
                     wrong.append((eng, gv))
+            gtxt = " and ".join(("%s" if pol_ else "not (%s)") % norm(t_) for t_, pol_ in tests)
             if wrong:
-                rr.bad(ctx.finding(rid, sd, guards[0].ast, "the guard of the attribute rewriting `%s` is %s for engine %r: None / True / False attributes are turned into strings for an engine that stores them natively, or left as they are for a netCDF engine (which then fails to save)" % (
-                    norm(guards[0].ast), wrong[0][1], wrong[0][0]), construct="attr-rewrite-guard"), "attr rewriting guard")
+                rr.bad(ctx.finding(rid, sd, tests[0][0], "the guard of the attribute rewriting `%s` is %s for engine %r: None / True / False attributes are turned into strings for an engine that stores them natively, or left as they are for a netCDF engine (which then fails to save)" % (
+                    gtxt[:90], wrong[0][1], wrong[0][0]), construct="attr-rewrite-guard"), "attr rewriting guard")
             else:
-                rr.ok("attribute rewriting: exactly None / True / False (identity tests) -> their names, under the non-joblib / non-zarr guard (evaluated per engine)")
+                rr.ok("attribute rewriting: exactly None / True / False (identity tests) -> their names, reached exactly for the non-joblib / non-zarr engines (path condition `%s` evaluated per engine)" % gtxt[:80])
         else:
             rr.bad(ctx.finding(rid, sd, sd.node, "attributes are rewritten for every engine, not only for the netCDF ones", construct="attr-rewrite-guard"), "attr rewriting guard")
     else:
